@@ -175,6 +175,27 @@ func clTerminateOnce(c *Ctx) {
 	fFreeq := p.Field("skiplist", "AccessBarrier", "freeq")
 	fSession := p.Field("skiplist", "AccessBarrier", "session")
 	offset, _ := constantInt64(p.Const("skiplist", "barrierFlushOffset"))
+	// the offset splits the count word in two halves: counts below it belong to an open session, counts above it to
+	// a closed one. It must be the half of the word: large enough that simultaneous holders can never reach it, small
+	// enough that offset+1 added to a count below the offset does not overflow.
+	fLiveT := p.Field("skiplist", "BarrierSession", "liveCount")
+	bits := int64(0)
+	if pt, ok := fLiveT.Type().Underlying().(*types.Pointer); ok {
+		bits = 8 * types.SizesFor("gc", "amd64").Sizeof(pt.Elem())
+	} else {
+		bits = 8 * types.SizesFor("gc", "amd64").Sizeof(fLiveT.Type())
+	}
+	if bits == 32 || bits == 64 {
+		maxv := int64(1)<<uint(bits-1) - 1
+		half := int64(1)<<uint(bits-2) - 1
+		if bits == 64 {
+			half = int64(1)<<30 - 1 // a wider word need not use more than the 32-bit split
+		}
+		c.Check(offset >= half && offset <= (maxv-1)/2, p.Func("skiplist", "AccessBarrier", "Release"), nil, "barrierFlushOffset is the half of the count word",
+			fmt.Sprintf("barrierFlushOffset = %d with a %d-bit count: with that many simultaneous holders an OPEN session's count reaches the offset — the next accessor backs off, 'terminates' the session with every holder inside, and its objects are destructed under them (or, if too large, adding offset+1 overflows)", offset, bits))
+	} else {
+		undecidedf("BarrierSession.liveCount: unexpected width %d", bits)
+	}
 	slInsert := p.Func("skiplist", "Skiplist", "Insert")
 	rfi := p.Info(rel)
 	var dec, closedAdd *ssa.Call
